@@ -4,8 +4,8 @@ lean/JF/Model/MPMediator.lean `JF.MP.leg`) leg by leg.
 Fed to the model per leg: what the activator returned (ordered), the recorded `connection.wait` results as the adversary,
 the handler the scheduler returned, the trash list (ordered). Compared with the real mediator: the stage of every handler and
 the keys of `_out_states` at commit time (recorded inside insert_into_global_state, i.e. before the trash loop), the stage of
-every returned pipe at the moment of each `wait`, the order in which candidate times were pushed, that all recorded waits are
-consumed. The reply also carries run-time evaluations of what the theorems state (tag of the committed out-state = last
+every returned pipe at the moment of each `wait`, the order of the push_event calls (after the receive loop, in the order in which
+the activator returned the handlers — `pushAll`), that all recorded waits are consumed. The reply also carries run-time evaluations of what the theorems state (tag of the committed out-state = last
 start of the chosen handler, boundary invariant, activator protocol hypotheses, adversary contract)."""
 
 STAGE_DIGIT = {"idle": "0", "event_time_started": "1", "suspended": "2", "out_state_started": "3"}
@@ -62,7 +62,7 @@ def validate(ctx, tr, base):
         if f["left"] != "0":
             ctx.disagree("mp.stage-machine", {**case, "what": "model's receive loop ended before the recorded waits were consumed"},
                          len(leg.get("mp_waits", [])), f["left"])
-        # order of scheduler pushes: recorded `times` is a dict filled in push order
+        # order of scheduler pushes: recorded `times` is a dict filled in push order; the model pushes after the loop in `created` order
         impl_push = [h for h in leg["times"]]
         if impl_push != _lst(f["pushed"]):
             ctx.disagree("mp.stage-machine", {**case, "what": "order of push_event calls"}, impl_push, f["pushed"])
